@@ -22,6 +22,7 @@ var vC11Shapes = [][][][]int{
 	{{{1}, {2}}, {{2}}},               // leaf location shared; it is the root of sample 2
 	{{{1, 2}, {3}}, {{3}, {1, 2}}},    // inlined location shared at different depths
 	{{{1}, {2}, {1}, {3}}},            // recursion
+	{{{1}, {2, 3}, {1}}},              // plain root, inlined pair, plain leaf
 }
 
 type vC11Prof struct {
@@ -147,6 +148,7 @@ func VerifC11Prune() {
 	// reference, from the statement
 	var want [][]int
 	var before [][]int
+	var cuts []int
 	for _, s := range p.Sample {
 		fs := vC11Frames(s, ids)
 		before = append(before, fs)
@@ -162,6 +164,7 @@ func VerifC11Prune() {
 				sawUser = true
 			}
 		}
+		cuts = append(cuts, cut)
 		if cut >= 0 {
 			want = append(want, fs[:cut])
 		} else {
@@ -191,6 +194,34 @@ func VerifC11Prune() {
 			}
 		}
 		dev := vDeviation(got, want[si])
+		// where the rule cuts: at the first (root-most) frame of a location, or inside a location
+		// ... and whether a frame the rules do not name lies in an earlier location
+		// (then even a per-location reading of "the first user frame" is satisfied)
+		if c := cuts[si]; c >= 0 {
+			pos := 0
+			userLocBefore := false
+			for _, l := range shape[si] {
+				if c > pos && c < pos+len(l) {
+					dev = "inner." + dev
+				}
+				if c >= pos && c < pos+len(l) && !userLocBefore {
+					dev = "rootloc." + dev
+				}
+				for _, f := range l {
+					if pos+len(l) <= c || pos > c {
+						_ = f
+					}
+				}
+				if pos+len(l) <= c {
+					for _, f := range l {
+						if !match(f) {
+							userLocBefore = true
+						}
+					}
+				}
+				pos += len(l)
+			}
+		}
 		switch {
 		case len(shape) > 1:
 			vAssert(false, "C11.prune.shared-location."+dev+": frames of a location shared between samples were trimmed according to another sample's context")
